@@ -6,11 +6,11 @@ CFG = {
                                    ("random", "-mode random -tier %s" % tier)],
     "signatures": {},
     "rule": "exhaustive: every history of exactly L steps (quick L=6, one heap: Insert key 1 / Insert key 2 with fresh values / Delete / DeleteAll; "
-            "three keys without DeleteAll, L=5; binomial/Fibonacci two keys without DeleteAll, L=8; two mergeable heaps, L=4: the same on both plus Merge in both directions; binary heap additionally with initial sizes 1..4) x 3 implementations "
+            "three keys without DeleteAll, L=5; binomial/Fibonacci two keys without DeleteAll, L=8; two mergeable heaps, L=4: the same on both (DeleteAll included) plus Merge in both directions; binary heap additionally with initial sizes 1..4) x 3 implementations "
             "x 6 comparators (the library's +-1 min and max comparators and magnitude comparators a-b, b-a, 3(a-b), 3(b-a); full depth under min and 3(b-a), one step less under the others), with the full battery Size/IsEmpty/Peek/ContainsKey 1,2,3/ContainsValue held,absent/verify()/layout dump after every step; "
             "shapes: binary heap fill-and-drain across every resize boundary for initial sizes 0..6, merges of heaps of sizes a,b (carry chains, three trees of one order) "
-            "then drain, 2^k+1 inserts + Delete (one tree of degree k, k <= 9 quick / 12 thorough) with ascending/descending/equal/random keys, float64 maxDegree(n) against the exact definition; random: pools of 1..8 heaps, up to 1200 (thorough 2000) steps, duplicate-heavy key ranges "
-            "{1,2,3,5,16,64,1000}, ascending/descending/equal/saw-tooth shapes, Merge, DeleteAll, final drain. "
+            "then drain, 2^k+1 inserts + Delete (one tree of degree k, k <= 9 quick / 12 thorough) with ascending/descending/equal/random keys, float64 maxDegree(n) against the exact definition, Merge histories (receiver plain / cleared-and-refilled / after a Delete / queried x argument never used / filled / cleared by DeleteAll / cleared-and-refilled / drained by Deletes / drained-and-cleared / queried / after one Delete / result of an earlier Merge, then possibly cleared or drained; argument keys better, worse or tying; full battery incl. ContainsValue of every value ever inserted on the receiver BEFORE any Delete, then Delete, battery, drain); random: pools of 1..8 heaps, up to 1200 (thorough 2000) steps, duplicate-heavy key ranges "
+            "{1,2,3,5,16,64,1000}, ascending/descending/equal/saw-tooth shapes, Merge (argument cleared/drained/queried right before it, receiver queried right after it), DeleteAll, final drain. "
             "A case is non-trivial when the model saw a Delete on a heap of >= 3 entries, a Merge of two non-empty heaps or a resize of the binary heap's array; "
             "distinct = distinct (header, op list).",
     "assumptions": [
